@@ -124,8 +124,11 @@ def _true_positions(cond):
     Where cond is True, as a numpy array when cond is a pandas nullable (masked) column:
     such a column can not be asked for the truth value of a missing entry.
     """
-    if hasattr(cond, "dtype") and hasattr(cond.dtype, "na_value") and hasattr(cond, "fillna"):
-        return cond.fillna(False).to_numpy(dtype=bool)
+    if hasattr(cond, "dtype") and hasattr(cond.dtype, "na_value") and hasattr(cond, "to_numpy"):
+        try:
+            return cond.to_numpy(dtype=bool, na_value=False)
+        except (TypeError, ValueError):
+            pass  # not a masked column after all (categorical ...): as before
     return cond
 
 
